@@ -158,6 +158,17 @@ def build(spec, overrides=None):
             d = dests[op[1]]
             net.add_destination(els[d["id"]], nodes[d["node"]])
             done.add(d["id"])
+        elif kind == "read":
+            read_lookups(net)
+        elif kind == "trystep":
+            # step the partially built network (result not judged: it need not be valid yet); this
+            # fills every cache a step fills, so that later construction calls must invalidate them
+            from lib.sut import NumpyEngine
+
+            try:
+                net.step(engine=NumpyEngine(1.0), **pars_kwargs(spec))
+            except Exception:
+                pass
         else:
             raise ValueError(op)
     for l in spec["links"]:
@@ -170,6 +181,20 @@ def build(spec, overrides=None):
         if d["id"] not in done:
             net.add_destination(els[d["id"]], nodes[d["node"]])
     return net, els, nodes
+
+
+def read_lookups(net):
+    """Reads every cached lookup the network offers."""
+    out = []
+    for name in ("nodes_by_name", "links_by_name", "nodes_by_link", "origins", "origins_by_name",
+                 "origins_by_node", "destinations", "destinations_by_name", "destinations_by_node"):
+        out.append(dict(getattr(net, name)))
+    out.append(list(net.links))
+    out.append(list(net.in_links))
+    for n in list(net.nodes):
+        out.append(list(net.out_links(n)))
+        out.append(list(net.in_links(n)))
+    return out
 
 
 def ic_numpy(els, state):
